@@ -185,20 +185,25 @@ func (r *c05Reader) Read(p []byte) (int, error) {
 // exactly (user, key), removes them and the transport-layer key.
 //
 //verif:prop C05
-//verif:bounds history of 0..3 AddAuthGrant operations over users {alice,bob} x keys with one symbolic byte, then one AuthorizeKeyAuthGrant(user,key) and a second identical one; authgrants enabled or not
+//verif:bounds history of 0..3 AddAuthGrant operations over users {alice,bob} x keys with one symbolic byte, grant type/start/expiry/command symbolic, then one AuthorizeKeyAuthGrant(user,key), a second identical one, one more grant and a third login; authgrants enabled or not
 //verif:cover granted;refused;disabled
-func VH_C05_grant_fallback_exact_user_and_key_once() {
+func VH_C05_grant_fallback_exact_user_and_key_once() { c05GrantFallback("C05") }
+
+func c05GrantFallback(prop string) {
 	enabled := verifBool("authgrants-enabled")
 	s := &HopServer{config: &config.ServerConfig{EnableAuthgrants: enabled}, agMap: authgrants.NewAuthgrantMapSync(), keyStore: authkeys.NewSyncAuthKeySet()}
 	users := []string{"alice", "bob"}
 	n := verifPick("grants", 0, 1, 2, 3)
 	var gUser [3]int
 	var gKey [3]byte
+	var gIntent [3]*authgrants.Intent
 	for i := 0; i < n; i++ {
 		gUser[i] = verifPick("grant-user", 0, 1)
 		gKey[i] = verifU8("grant-key")
-		in := &authgrants.Intent{TargetUsername: users[gUser[i]], GrantType: authgrants.Command, ExpTime: time.Unix(2000000000, 0)}
+		in := &authgrants.Intent{TargetUsername: users[gUser[i]], GrantType: authgrants.GrantType(verifU8("grant-type")), StartTime: time.Unix(int64(verifU32("grant-start")), 0), ExpTime: time.Unix(int64(verifU32("grant-exp")), 0)}
+		in.AssociatedData.CommandGrantData.Cmd = verifString("grant-cmd", 1)
 		in.DelegateCert.PublicKey[0] = gKey[i]
+		gIntent[i] = in
 		s.agMap.AddAuthGrant(in, authgrants.PrincipalID(i+1))
 		s.keyStore.AddKey(in.DelegateCert.PublicKey)
 	}
@@ -207,26 +212,50 @@ func VH_C05_grant_fallback_exact_user_and_key_once() {
 	pk[0] = verifU8("login-key")
 	ags, err := s.AuthorizeKeyAuthGrant(users[u], pk)
 	want := 0
+	var wantIdx []int
 	for i := 0; i < n; i++ {
 		if gUser[i] == u && gKey[i] == pk[0] {
 			want++
+			wantIdx = append(wantIdx, i)
 		}
 	}
 	if !enabled {
-		verifAssert(err != nil && len(ags) == 0, "C05: grants are not consulted when authorization grants are disabled")
+		verifAssert(err != nil && len(ags) == 0, prop+": grants are not consulted when authorization grants are disabled")
 		verifCover("disabled")
 		return
 	}
-	verifAssert((err == nil) == (want > 0), "C05: a grant login succeeds iff an unconsumed grant exists for exactly that user and key")
+	verifAssert((err == nil) == (want > 0), prop+": a grant login succeeds iff an unconsumed grant exists for exactly that user and key")
 	if err == nil {
 		verifCover("granted")
-		verifAssert(len(ags) == want, "C05: exactly the grants of that user and key are handed out")
-		for _, g := range ags {
-			verifAssert(g.DelegateCert.PublicKey == pk, "C05: every grant handed out names the connecting key")
+		verifAssert(len(ags) == want, prop+": exactly the grants of that user and key are handed out")
+		for j, g := range ags {
+			verifAssert(g.DelegateCert.PublicKey == pk, prop+": every grant handed out names the connecting key")
+			if j < len(wantIdx) {
+				in := gIntent[wantIdx[j]]
+				same := verifAnd(g.GrantType == in.GrantType, verifAnd(g.StartTime.Equal(in.StartTime), g.ExpTime.Equal(in.ExpTime)))
+				same = verifAnd(same, verifAnd(verifStrEq(g.AssociatedData.CommandGrantData.Cmd, in.AssociatedData.CommandGrantData.Cmd), g.PrincipalID == authgrants.PrincipalID(wantIdx[j]+1)))
+				verifAssert(same, prop+": a stored grant keeps the type, start, expiry, command and principal of the intent it was issued for")
+			}
 		}
 		_, err2 := s.AuthorizeKeyAuthGrant(users[u], pk)
-		verifAssert(err2 != nil, "C05: grants disappear once consumed")
+		verifAssert(err2 != nil, prop+": grants disappear once consumed")
+		// a grant added afterwards is handed out alone
+		in := &authgrants.Intent{TargetUsername: users[u], GrantType: authgrants.Command, ExpTime: time.Unix(2000000000, 0)}
+		in.DelegateCert.PublicKey = pk
+		s.agMap.AddAuthGrant(in, 9)
+		s.keyStore.AddKey(pk)
+		ags3, err3 := s.AuthorizeKeyAuthGrant(users[u], pk)
+		verifAssert(err3 == nil && len(ags3) == 1, prop+": consumed grants do not come back with a later grant for the same key")
 	} else {
 		verifCover("refused")
 	}
 }
+
+// The same history harness under C07: grants are usable only by the key they
+// name, keep the fields (type, window, command) they were issued with and
+// disappear once consumed.
+//
+//verif:prop C07
+//verif:bounds as VH_C05_grant_fallback_exact_user_and_key_once
+//verif:cover granted;refused;disabled
+func VH_C07_stored_grants_keep_their_fields_and_go_to_their_key_once() { c05GrantFallback("C07") }
